@@ -45,6 +45,20 @@ def shapes_of(src):
         if isinstance(n, ast.AnnAssign) and not n.simple and n.value is None and isinstance(n.target, ast.Name):
             s.add('annassign-paren-novalue')
         if isinstance(n, ast.ClassDef):
+            for m in ast.walk(n):
+                names = []
+                if isinstance(m, ast.Name):
+                    names = [m.id]
+                elif isinstance(m, ast.arg):
+                    names = [m.arg]
+                elif isinstance(m, (ast.FunctionDef, ast.AsyncFunctionDef, ast.ClassDef)) and m is not n:
+                    names = [m.name]
+                elif isinstance(m, (ast.Global, ast.Nonlocal)):
+                    names = list(m.names)
+                elif isinstance(m, ast.alias):
+                    names = [m.asname or m.name.split('.')[0]]
+                if any(x.startswith('__') and not x.endswith('__') for x in names if isinstance(x, str)):
+                    s.add('private-name-in-class')
             seen_bind = set()
             for st in n.body:
                 for m in ast.walk(st):
@@ -82,7 +96,7 @@ def _class_level_names(stmt):
     return out
 
 
-def programs(ctx, n_exhaustive, n_random):
+def programs(ctx, n_exhaustive, n_random, private=False):
     ex = scopegen.exhaustive(full=(ctx.tier == 'thorough'))
     if n_exhaustive is not None and len(ex) > n_exhaustive:
         # deterministic stratified sample: every (bind, ref) pair appears at least once in 'def' or 'module'
@@ -98,7 +112,8 @@ def programs(ctx, n_exhaustive, n_random):
     short = scopegen.short_named(ex[:ctx.scale(250, 3000)] + sib[:ctx.scale(40, 210)])
     imp = scopegen.import_programs()
     par = scopegen.parameter_programs()
-    return decl + imp + par + sib + short + ex + rnd
+    priv = scopegen.private_name_programs() if private else []      # name mangling is a C03 matter (known finding F30)
+    return decl + imp + par + priv + sib + short + ex + rnd
 
 
 def check_alpha(ctx, ident, src, oname, extra, prop_filter=None):
@@ -198,7 +213,9 @@ def assigner_correspondence(ctx, progs, flagsets):
                     cp = cover_problems(module)
                     ctx.bump('cover', 'ok' if not cp else 'PROBLEM')
                     if cp:
-                        ctx.add_broken('correspondence', 'cover:%s' % ident, '%s source=%r' % (cp[:2], src[:300]))
+                        ctx.add_violation({'input': {'source': src, 'options': {'rename_locals': rl, 'rename_globals': rg, 'hoist_literals': hl}},
+                                           'what': 'the reservation scope of a binding does not cover the lookup path of one of its occurrences (hypothesis `cover` of T03.4): %s' % cp[0],
+                                           'found_by': 'cover', 'oracle': 'cover', 'shapes': shapes_of(src)})
                 real = rename_dump.real_names(module, pairs, pg, prefix)
             except RecursionError:
                 ctx.bump('assigner', 'RecursionError')
